@@ -3,6 +3,7 @@ import io as _io
 import locale
 import os
 import tempfile
+import codecs
 import math
 import warnings
 
@@ -80,7 +81,7 @@ def delimited_case(draw, loaders=None):
     if fault == "convention" and not rows:
         fault = None
     return {"loader": loader, "rows": rows, "delim": draw(st.sampled_from(DELIMS)), "comments": draw(st.sampled_from(["none", "none", "even", "first", "last"])),
-            "final_newline": draw(st.booleans()), "route": draw(st.sampled_from(["stringio", "path"])),
+            "final_newline": draw(st.booleans()), "route": draw(st.sampled_from(["stringio", "path", "stringio", "path", "open", "namedtemp", "codecs", "duck"])),
             "fault": fault, "fault_row": draw(st.integers(0, 5)), "fault_col": draw(st.integers(0, 2)), "crlf": draw(st.integers(0, 5)) == 0,
             # the comment= keyword: default '#', another marker, or None (comments disabled -> the file has no comment lines)
             "comment_marker": draw(st.sampled_from(["#", "#", "#", "%", "//", None]))}
@@ -118,12 +119,48 @@ def deliver(txt, route):
                     f.write(txt)
                 return self_.p
             self_.p = None
+            self_.h = None
+            if route in ("open", "namedtemp", "codecs"):
+                # other kinds of open file objects: a handle from open(), a tempfile.NamedTemporaryFile wrapper, a codecs reader
+                os.makedirs(WORK, exist_ok=True)
+                if route == "namedtemp":
+                    self_.h = tempfile.NamedTemporaryFile("w+", dir=WORK, suffix=".txt", encoding=ENC, newline="")
+                    self_.h.write(txt)
+                    self_.h.seek(0)
+                    return self_.h
+                fd, self_.p = tempfile.mkstemp(dir=WORK, suffix=".txt")
+                with os.fdopen(fd, "w", newline="", encoding=ENC) as f:
+                    f.write(txt)
+                self_.h = open(self_.p, "r", encoding=ENC, newline="") if route == "open" else codecs.open(self_.p, "r", ENC)
+                return self_.h
+            if route == "duck":
+                return _Reader(txt)
             return _io.StringIO(txt)
 
         def __exit__(self_, *a):
+            if getattr(self_, "h", None) is not None:
+                self_.h.close()
             if self_.p:
                 os.unlink(self_.p)
     return _D()
+
+
+class _Reader:
+    """A minimal file-like object (read / readline / readlines / iteration), not derived from io.IOBase."""
+    def __init__(self, txt):
+        self._f = _io.StringIO(txt)
+
+    def read(self, *a):
+        return self._f.read(*a)
+
+    def readline(self, *a):
+        return self._f.readline(*a)
+
+    def readlines(self, *a):
+        return self._f.readlines(*a)
+
+    def __iter__(self):
+        return iter(self._f)
 
 
 def _encodable(txt):
@@ -188,7 +225,7 @@ def pred_delimited(case, ctx):
             bad[i][j] = _fmt(bad[i][j]) + "x"
             what = "an unparsable number"
         txt, where = build_text(bad, sep, case["comments"], case["final_newline"], crlf, comment_char=cc)
-        if route == "path" and not _encodable(txt):
+        if route in ("path", "open", "namedtemp", "codecs") and not _encodable(txt):
             route = "stringio"
         if sep.join(_fmt(v) for v in bad[i]).startswith(cc) and marker is not None:
             ctx.skip("corrupted row begins with the comment marker and is legitimately ignored")
@@ -221,7 +258,7 @@ def pred_delimited(case, ctx):
         else:
             fault = None
     txt, where = build_text(rows, sep, case["comments"], case["final_newline"], crlf, comment_char=cc)
-    if route == "path" and not _encodable(txt):
+    if route in ("path", "open", "namedtemp", "codecs") and not _encodable(txt):
         route = "stringio"
     with deliver(txt, route) as obj:
         out, w = ctx.call(_call, fn, obj, **kw)
